@@ -13,6 +13,8 @@ import (
 	"github.com/corestario/kyber/share"
 	dkgPedersen "github.com/corestario/kyber/share/dkg/pedersen"
 	vss "github.com/corestario/kyber/share/vss/pedersen"
+	"github.com/corestario/kyber/sign/schnorr"
+	"github.com/corestario/kyber/util/random"
 	"lukechampine.com/frand"
 
 	"github.com/lidofinance/dc4bc/airgapped"
@@ -78,10 +80,47 @@ func otherPolynomial(r *kit.Run, w *world.World, round string, t, D, V int) ([]b
 	return enc, commits
 }
 
+// shiftedPolynomialDeal: the dealer's own polynomial with the constant term moved by one (the
+// machine draws its polynomial from its base seed; the same stream gives the same higher
+// coefficients): the deal for V contradicts the broadcast commitments in the first place only.
+func shiftedPolynomialDeal(r *kit.Run, w *world.World, t, D, V int) []byte {
+	a := w.Airs[D]
+	suite := bls12381.NewBLS12381Suite(nil)
+	var pubs []kyber.Point
+	for _, x := range w.Airs {
+		pubs = append(pubs, x.M.GetPubKey())
+	}
+	stream := random.New(frand.NewCustom(a.M.VerifBaseSeed(), 32, 20))
+	secret := suite.Scalar().Pick(stream)
+	dealer, err := vss.NewDealer(suite, a.M.VerifSecKey(), suite.Scalar().Add(secret, suite.Scalar().One()), pubs, t, stream)
+	if err != nil {
+		r.Infra("shifted dealer: %v", err)
+	}
+	enc, err := dealer.EncryptedDeal(V)
+	if err != nil {
+		r.Infra("shifted dealer deal: %v", err)
+	}
+	deal := &dkgPedersen.Deal{Index: uint32(D), Deal: enc}
+	buf, err := deal.MarshalBinary()
+	if err != nil {
+		r.Infra("shifted dealer deal: %v", err)
+	}
+	if deal.Signature, err = schnorr.Sign(suite, a.M.VerifSecKey(), buf); err != nil {
+		r.Infra("shifted dealer deal: %v", err)
+	}
+	bz, _ := json.Marshal(deal)
+	base := bls12381.NewBLS12381Suite(nil)
+	out, err := ecies.Encrypt(base, w.Airs[V].M.GetPubKey(), bz, base.Hash)
+	if err != nil {
+		r.Infra("encrypt deal: %v", err)
+	}
+	return out
+}
+
 // innerDealMutations: field-level edits of the PLAINTEXT vss deal before the dealer encrypts and
 // signs it (what a dealer running modified software sends: everything around the deal is valid).
-// (a deal without its SessionID field is not in the list: kyber recomputes the session id from the
-// commitments and never reads the field, so such a deal is a well-formed deal in effect)
+// (a deal WITHOUT its SessionID field is not in the list: kyber answers with the session id it
+// computes and such a deal turned out to have no effect; a deal naming ANOTHER session id has)
 var innerDealMutations = map[string]func(d *vss.Deal){
 	"no-share": func(d *vss.Deal) { d.SecShare = nil },
 	"share-without-value": func(d *vss.Deal) {
@@ -179,6 +218,7 @@ func c11(tier string, args []string) int {
 	}
 	devs := []deviation{
 		{"deal-from-other-polynomial", dpf.StateDkgDealsAwaitConfirmations, onlyV},
+		{"deal-from-polynomial-with-other-constant-term", dpf.StateDkgDealsAwaitConfirmations, onlyV},
 		{"deal-encrypted-to-third-party", dpf.StateDkgDealsAwaitConfirmations, onlyV},
 		{"deal-truncated", dpf.StateDkgDealsAwaitConfirmations, onlyV},
 		{"deal-bit-flipped", dpf.StateDkgDealsAwaitConfirmations, onlyV},
@@ -331,6 +371,8 @@ func runC11(r *kit.Run, n, t, D, V int, dv deviation, allOrders bool) {
 				switch dv.Kind {
 				case "deal-from-other-polynomial":
 					req.Deal = otherPolynomialDeal(r, w, run.Round, t, D, V)
+				case "deal-from-polynomial-with-other-constant-term":
+					req.Deal = shiftedPolynomialDeal(r, w, t, D, V)
 				case "deal-encrypted-to-third-party":
 					var other requests.DKGProposalDealConfirmationRequest
 					_ = json.Unmarshal(res.ResultMsgs[wi].Data, &other)
